@@ -220,7 +220,8 @@ def spelling(ctx, rid):
     paths = explore(f, pure=lambda c: True)
     r.paths(rid, len(paths))
     if any(pa.end == "loop" for pa in paths):
-        r.undecidable(rid, "is_skip is not loop-free")
+        _is_skip_loop_form(ctx, rid, f)
+        _is_skip_siblings(ctx, rid)
         return
 
     def atom_of(key, val):
@@ -270,6 +271,89 @@ def spelling(ctx, rid):
         r.violation(rid, "is_skip: %s" % ",".join("%s=%s" % kv for kv in sorted(assign.items())),
                     "returns %s where the spelling table {rustfmt::skip, rustfmt_skip, cfg_attr(_, .., skip, ..)} gives %s%s" % (
                         got, exp, (" under %s" % unknown) if unknown else ""), ["%s:%d" % (f.file, f.line)])
+    _is_skip_siblings(ctx, rid)
+
+
+def _is_skip_loop_form(ctx, rid, f):
+    """is_skip written with an explicit loop over the cfg_attr list: one iteration is judged, the loop edge closes the induction"""
+    p, r = ctx.p, ctx.r
+    paths = explore(f, pure=lambda c: True, max_visits=2)
+    r.paths(rid, len(paths))
+    IT = r"Iterator>::next\(.*std::iter::Iterator::skip\(core::slice::<impl \[T\]>::iter\(arg1\.kind as List\.0\),1\)"
+    shapes = set()
+    bad = []
+    for pa in paths:
+        kind = None
+        eq_skip = eq_depr = cfg = None
+        seq = []
+        for k, v in pa.decisions:
+            vn = variant_name(v)
+            if k == "discr(arg1.kind)":
+                if isinstance(vn, str):
+                    kind = vn if vn in ("Word", "List") else "other"
+                elif isinstance(vn, tuple) and vn[0] == "other" and set(vn[1]) == {"Word"}:
+                    kind = "Word"
+                elif isinstance(vn, tuple) and vn[0] == "other" and set(vn[1]) == {"List"}:
+                    kind = "List"
+                continue
+            if isinstance(v, bool) and "path_to_string(arg1.path)" in k and "PartialEq" in k:
+                val = v if "::eq(" in k else (not v)
+                if "utils::skip_annotation()" in k:
+                    eq_skip = val
+                elif "utils::depr_skip_annotation()" in k:
+                    eq_depr = val
+                continue
+            if isinstance(v, bool) and "has_name(arg1" in k and "cfg_attr" in k:
+                cfg = v
+                continue
+            if k.startswith("discr(") and re.search(IT, k) and vn in ("Some", "None"):
+                seq.append(vn)
+                continue
+            if isinstance(v, bool) and k.startswith("utils::is_skip_nested(") and re.search(IT, k) and " as Some.0" in k:
+                seq.append(v)
+                continue
+            seq.append(("?", k[-80:]))
+        ret = None
+        if pa.end == "ret" and pa.ret is not None:
+            ret = pa.ret[1] if pa.ret[0] == "k" and isinstance(pa.ret[1], bool) else vkey(pa.ret)
+        desc = "kind=%s cfg=%s eq_skip=%s eq_depr=%s seq=%s → %s/%s" % (kind, cfg, eq_skip, eq_depr, seq, pa.end, str(ret)[-60:])
+        ok = False
+        if kind == "List" and cfg is False:
+            ok = pa.end == "ret" and ret is False and not seq
+        elif kind == "List" and cfg is True:
+            if seq == ["Some", True]:
+                ok = pa.end == "ret" and ret is True
+                shapes.add("found")
+            elif seq == ["Some", False]:
+                ok = pa.end == "loop"
+                shapes.add("next")
+            elif seq == ["None"]:
+                ok = pa.end == "ret" and ret is False
+                shapes.add("exhausted")
+        elif kind == "Word":
+            if eq_skip is True:
+                ok = ret is True and not seq
+            elif eq_skip is False and eq_depr is None:
+                ok = isinstance(ret, str) and "utils::depr_skip_annotation()" in ret and "::eq(" in ret and not seq
+            elif eq_skip is False:
+                ok = ret is eq_depr and not seq
+        elif kind == "other" or kind is None:
+            ok = pa.end == "ret" and ret is False and not seq
+        r.cells(rid, 1)
+        if not ok:
+            bad.append(desc)
+    complete = shapes == {"found", "next", "exhausted"}
+    r.instance(rid, "is_skip table (loop form: found / next / exhausted)", "ok" if not bad and complete else "deviates",
+               "%s:%d" % (f.file, f.line), "%d paths, %d deviate, shapes %s" % (len(paths), len(bad), sorted(shapes)))
+    if not complete and not bad:
+        r.undecidable(rid, "is_skip (loop form): iteration shapes seen %s" % sorted(shapes))
+    for d in bad[:4]:
+        r.violation(rid, "is_skip: %s" % d, "a path of is_skip deviates from the spelling table {rustfmt::skip, rustfmt_skip, "
+                    "cfg_attr(_, .., skip, ..)}", ["%s:%d" % (f.file, f.line)])
+
+
+def _is_skip_siblings(ctx, rid):
+    p, r = ctx.p, ctx.r
     # the word comparison must be against the literal spellings (checked below) and the cfg_attr test against sym::cfg_attr
     # the two spellings
     for nm, lit in (("skip_annotation", "rustfmt::skip"), ("depr_skip_annotation", "rustfmt_skip")):
@@ -360,6 +444,18 @@ def whole_file(ctx, rid):
                         ["%s:%d" % (cl.file, cl.line)])
     fp = p.fn("rustfmt_nightly::formatting::format_project")
     if fp is not None:
+        from common import blocks_dominate
+
+        def is_echo(c):
+            # echo_back_stdin itself, or a private helper of the module every return of which has passed through it
+            if c.name.endswith("echo_back_stdin"):
+                return True
+            h = p.fns.get(c.name)
+            if h is None or h.vis == "pub" or not h.id.startswith("rustfmt_nightly::formatting::"):
+                return False
+            es = [x.bb for x in h.calls() if x.name.endswith("echo_back_stdin")]
+            return bool(es) and all(blocks_dominate(h, es, rb) for rb in h.returns()) and \
+                not any(x.name.endswith("::format_file") for x in h.calls())
         # stdin echo branch
         gs = [c for c in fp.calls() if c.name == CONTAINS_SKIP]
         ff = [c for c in fp.calls() if c.name.endswith("::format_file")]
@@ -368,8 +464,8 @@ def whole_file(ctx, rid):
             for (sw, t_true, t_false) in bool_branches(fp, g.dest[0]):
                 tcalls = [c for c in fp.calls() if c.bb in fp.reachable(t_true, stop_blocks=fp.returns())]
                 if all(c.bb not in fp.reachable(t_true) or edge_dominates(fp, (sw, t_false), c.bb) for c in ff) and \
-                        any(c.name.endswith("echo_back_stdin") for c in tcalls):
-                    ok = all(not edge_dominates(fp, (sw, t_true), c.bb) or c.name.endswith("echo_back_stdin")
+                        any(is_echo(c) for c in tcalls):
+                    ok = all(not edge_dominates(fp, (sw, t_true), c.bb) or is_echo(c)
                              or not c.name.startswith("rustfmt_nightly::formatting::") for c in tcalls)
         r.instance(rid, "stdin inner-skip echo", "ok" if ok else "violation", "%s:%d" % (fp.file, fp.line))
         if not ok:
